@@ -9,6 +9,8 @@ mod c04;
 mod lockstep;
 mod c02;
 mod c17;
+mod c09;
+mod c16;
 
 use engine::{Env, Tier};
 use std::path::PathBuf;
@@ -93,6 +95,8 @@ fn main() {
         "C04" => c04::run(&env),
         "C02" => c02::run(&env),
         "C17" => c17::run(&env),
+        "C09" => c09::run(&env),
+        "C16" => c16::run(&env),
         _ => usage(),
     };
     std::process::exit(code);
